@@ -728,7 +728,6 @@ func (s *Server) Invoke(responseWriter http.ResponseWriter, invoke *interop.Invo
 	case err = <-releaseErrChan:
 		log.Debug("Invoke() release error")
 	case <-releaseSuccessChan:
-		s.Release()
 		log.Debug("Invoke() success")
 	}
 
